@@ -439,6 +439,8 @@ impl TypeSerialize {
     }
     #[doc(hidden)]
     pub fn serialize(&mut self) -> Result<()> {
+        // `serialize` may be called more than once (and more arguments pushed in between)
+        self.result.clear();
         leb128_encode(&mut self.result, self.type_table.len() as u64)?;
         self.result.append(&mut self.type_table.concat());
 
